@@ -54,12 +54,14 @@ func choicesOf(tr []vsched.ChoicePoint, n int) []int {
 func exploreSched(job *Job, res *Result, sc schedScenario, maxBound int) *schedStats {
 	st := &schedStats{ByBound: map[int]int{}, Outcomes: map[string]int{}}
 	stop := false
+	lastDiverged := ""
 	runChecked := func(prefix []int) (schedOut, bool) {
 		for try := 0; try < 4; try++ {
 			o := sc.Run(prefix)
 			if o.Diverged == "" {
 				return o, true
 			}
+			lastDiverged = o.Diverged
 			res.Flaky++
 		}
 		return schedOut{}, false
@@ -78,7 +80,7 @@ func exploreSched(job *Job, res *Result, sc schedScenario, maxBound int) *schedS
 			}
 			o, ok := runChecked(prefix)
 			if !ok {
-				res.EngineError = "schedule replay diverged repeatedly (uncontrolled nondeterminism) in " + sc.Name
+				res.EngineError = "schedule replay diverged repeatedly (uncontrolled nondeterminism) in " + sc.Name + ": " + lastDiverged
 				stop = true
 				return
 			}
